@@ -25,6 +25,8 @@ pub enum Op {
     Rule(usize, usize),
     /// session i: `.session clear`
     Clear(usize),
+    /// session i adds the ephemeral facts [e(1,2), e(1,2)] in ONE insert call (an in-batch duplicate)
+    FactBatch(usize),
     /// writer: +e(a, b)
     WIns(i64, i64),
     /// writer: -e(a, b)
@@ -42,6 +44,7 @@ impl Op {
             Op::Retract(i, a, b) => format!("S{i}: retract e({a}, {b})"),
             Op::Rule(i, k) => format!("S{i}: {}", SESSION_RULES[*k].0),
             Op::Clear(i) => format!("S{i}: .session clear"),
+            Op::FactBatch(i) => format!("S{i}: insert [e(1, 2), e(1, 2)]"),
             Op::WIns(a, b) => format!("W: +e({a}, {b})"),
             Op::WDel(a, b) => format!("W: -e({a}, {b})"),
             Op::WRule(k) => format!("W: +{}", PERSISTENT_RULES[*k].0),
@@ -50,7 +53,7 @@ impl Op {
     }
     fn session(&self) -> Option<usize> {
         match self {
-            Op::Fact(i, ..) | Op::Retract(i, ..) | Op::Rule(i, _) | Op::Clear(i) => Some(*i),
+            Op::Fact(i, ..) | Op::Retract(i, ..) | Op::Rule(i, _) | Op::Clear(i) | Op::FactBatch(i) => Some(*i),
             _ => None,
         }
     }
@@ -90,6 +93,9 @@ impl Model {
         match *op {
             Op::Fact(i, a, b) => {
                 self.sess_facts[i].insert((a, b));
+            }
+            Op::FactBatch(i) => {
+                self.sess_facts[i].insert((1, 2));
             }
             Op::Retract(i, a, b) => {
                 self.sess_facts[i].remove(&(a, b));
@@ -180,6 +186,7 @@ impl Sut {
             Op::Retract(i, a, b) => self.env.handler.session_retract_ephemeral(&self.sids[i], "e", t(a, b)).map(|_| None),
             Op::Rule(i, k) => self.env.run(Some(&self.sids[i]), None, &SESSION_RULES[k].0, None).map(|_| None),
             Op::Clear(i) => self.env.run(Some(&self.sids[i]), None, ".session clear", None).map(|_| None),
+            Op::FactBatch(i) => self.env.handler.session_insert_ephemeral(&self.sids[i], "e", [t(1, 2), t(1, 2)].concat()).map(|_| None),
             Op::WIns(a, b) => self.env.run(None, Some("A"), &format!("+e({a}, {b})"), None).map(|_| None),
             Op::WDel(a, b) => self.env.run(None, Some("A"), &format!("-e({a}, {b})"), None).map(|_| None),
             Op::WRule(k) => self.env.run(None, Some("A"), &format!("+{}", PERSISTENT_RULES[k].0), None).map(|_| None),
@@ -290,6 +297,9 @@ fn alphabet(reduced: bool) -> Vec<Op> {
             v.push(Op::Fact(i, 2, 1));
         }
         v.push(Op::Retract(i, 1, 2));
+        if !reduced {
+            v.push(Op::FactBatch(i));
+        }
         v.push(Op::Rule(i, 0));
         if !reduced {
             v.push(Op::Rule(i, 1));
@@ -387,7 +397,7 @@ pub fn c10(args: &Args) -> i32 {
     }
     let run = Run::new(args, "model_checking", 55.0, 1500.0);
     let quick = run.quick();
-    run.set_rule("E2 leg: EVERY request-level interleaving (history) of two sessions (ephemeral fact e(1,2) / e(2,1), retract, session rule p(Y,X) <- e(X,Y) / s(X) <- e(X,_), !e(_,X), `.session clear`), one persistent writer (+e(1,2), -e(1,2), +e(3,3), +p(X,Y) <- e(X,Y), +c(X,count<Y>) <- e(X,Y)) and one session-less request with a request-local fact, up to depth 3 over the full 18-request alphabet and depth 4 (thorough: 5) over a 12-request alphabet, from two start states (empty KG; KG with e(1,2) and both persistent rules); the two sessions are interchangeable, so histories whose first session request is S1's are skipped. Each history runs on a fresh real Handler through execute_program; afterwards S0, S1 and a session-less client each ask ?e, ?p, ?c, ?s and the answers are compared with R1 on (persistent facts + own facts, persistent rules + own rules); stored facts and registered rules must equal what the writer's requests alone produce. E4 leg: see `interleavings` in the evidence. non-trivial = histories with at least one session request and one writer request");
+    run.set_rule("E2 leg: EVERY request-level interleaving (history) of two sessions (ephemeral fact e(1,2) / e(2,1), a two-tuple insert that repeats e(1,2), retract, session rule p(Y,X) <- e(X,Y) / s(X) <- e(X,_), !e(_,X), `.session clear`), one persistent writer (+e(1,2), -e(1,2), +e(3,3), +p(X,Y) <- e(X,Y), +c(X,count<Y>) <- e(X,Y)) and one session-less request with a request-local fact, up to depth 3 over the full 20-request alphabet and depth 4 (thorough: 5) over a 12-request alphabet, from two start states (empty KG; KG with e(1,2) and both persistent rules); the two sessions are interchangeable, so histories whose first session request is S1's are skipped. Each history runs on a fresh real Handler through execute_program; afterwards S0, S1 and a session-less client each ask ?e, ?p, ?c, ?s and the answers are compared with R1 on (persistent facts + own facts, persistent rules + own rules); stored facts and registered rules must equal what the writer's requests alone produce. E4 leg: see `interleavings` in the evidence. non-trivial = histories with at least one session request and one writer request");
     run.assume("reference evaluator R1; a query on a relation nobody defined may answer with an error instead of an empty set");
     let full = alphabet(false);
     let red = alphabet(true);
@@ -442,6 +452,7 @@ pub fn parse_op(s: &str) -> Option<Op> {
         ("Retract", [i, a, b]) => Op::Retract(*i as usize, *a, *b),
         ("Rule", [i, k]) => Op::Rule(*i as usize, *k as usize),
         ("Clear", [i]) => Op::Clear(*i as usize),
+        ("FactBatch", [i]) => Op::FactBatch(*i as usize),
         ("WIns", [a, b]) => Op::WIns(*a, *b),
         ("WDel", [a, b]) => Op::WDel(*a, *b),
         ("WRule", [k]) => Op::WRule(*k as usize),
